@@ -59,7 +59,7 @@ class ClassDecl:
 class Contract:
     def __init__(self, key, params=None, returns=None, requires=(), ensures=(), raises=None,
                  modifies=(), loops=None, ghost_entry=(), ghost_exit=(), external=False, tags=(),
-                 locals=None, doc="", pure=False, handler=None, allow_escape=(), assume_on_entry=(), ghost_after=None, ghost_results=None, yield_raises=False, ctype_model=None, prelude=None, reveal=()):
+                 locals=None, doc="", pure=False, handler=None, allow_escape=(), assume_on_entry=(), ghost_after=None, ghost_results=None, yield_raises=False, ctype_model=None, prelude=None, reveal=(), const_params=None):
         self.key = key
         self.params = {k: parse_type(v) for k, v in (params or {}).items()}
         self.returns = parse_type(returns) if returns else None
@@ -84,6 +84,7 @@ class Contract:
         self.yield_raises = yield_raises
         self.ctype_model = ctype_model
         self.reveal = tuple(reveal)
+        self.const_params = dict(const_params or {})    # parameters fixed to a python constant for this contract variant (e.g. a literal tuple of names)
         self.prelude = prelude          # key of an external contract applied at every call site BEFORE the requires (interference of another thread)
         self.ghost_results = {k: parse_type(v) for k, v in (ghost_results or {}).items()}
         # ghost statements run after the normal return of a call to the named callee inside this function
